@@ -246,8 +246,23 @@ func main() {
 	w := bufio.NewWriterSize(os.Stdout, 1<<20)
 	defer w.Flush()
 	n := 0
+	hangs := 0
 	for sc.Scan() {
 		n++
-		fmt.Fprintln(w, runCase(dir, n, sc.Text()))
+		// a case that never comes back (a lock that is never released, a goroutine that is never joined) must not hang the check
+		line := sc.Text()
+		if hangs >= 3 {
+			fmt.Fprintln(w, "HANG skipped: three earlier cases of this run did not finish")
+			continue
+		}
+		resc := make(chan string, 1)
+		go func() { resc <- runCase(dir, n, line) }()
+		select {
+		case r := <-resc:
+			fmt.Fprintln(w, r)
+		case <-time.After(60 * time.Second):
+			hangs++
+			fmt.Fprintln(w, "HANG the case did not finish within 60 s")
+		}
 	}
 }
